@@ -11,6 +11,7 @@ import (
 	"testing/synctest"
 
 	"github.com/pion/ice/v4/internal/zzmc"
+	"github.com/pion/stun/v3"
 )
 
 func init() {
@@ -150,6 +151,76 @@ func c13refcountTCP() zzmc.Scenario {
 				_ = m.Close()
 
 				return out, fail
+			}
+		},
+	}
+}
+
+// ---------------------------------------------------------------- a datagram arriving while one of two handles is closed
+
+func init() {
+	csScenarios["refcount-udp-inbound"] = c13refcountInbound
+}
+
+// c13refcountInbound: two handles on one ufrag, a reader blocked on each; one datagram for the ufrag arrives while the
+// first handle is closed. "Closing one handle ... leaves sibling handles fully usable": the datagram reaches a reader
+// whose handle is open — it is never left in the queue behind a reader that went away.
+func c13refcountInbound() zzmc.Scenario {
+	return zzmc.Scenario{
+		Name:     "refcount-udp-inbound",
+		Focus:    []string{"udp_mux.go", "udp_muxed_conn.go", "shared_packet_conn.go"},
+		MaxSteps: 1500,
+		Setup: func(s *zzmc.Sched) func(string) (string, string) {
+			fb := newFakeBottom(false)
+			m := NewUDPMuxDefault(UDPMuxParams{UDPConn: fb, Logger: nopLogger{}, Net: vNet{}})
+			h1, err := m.GetConn("u1", fb.LocalAddr())
+			if err != nil {
+				panic(err)
+			}
+			h2, _ := m.GetConn("u1", fb.LocalAddr())
+			req, err := stun.Build(stun.BindingRequest, stun.TransactionID, stun.NewUsername("u1:r"), stun.Fingerprint)
+			if err != nil {
+				panic(err)
+			}
+			fail := ""
+			got1, got2 := 0, 0
+			var e1 error
+			h1closing := false
+			// the readers do not keep the execution alive: one of them stays blocked for good (there is one datagram)
+			s.GoDaemon("R1", func() {
+				n, _, err := h1.ReadFrom(make([]byte, 1500))
+				if err == nil && n > 0 {
+					got1++
+				}
+				e1 = err
+			})
+			s.GoDaemon("R2", func() {
+				n, _, err := h2.ReadFrom(make([]byte, 1500))
+				if err == nil && n > 0 {
+					got2++
+				}
+			})
+			s.Go("IN", func() { fb.rx <- rxPacket{"10.0.0.9:9", req.Raw} })
+			s.Go("C1", func() {
+				h1closing = true
+				_ = h1.Close()
+			})
+
+			return func(dead string) (string, string) {
+				synctest.Wait()
+				if got1+got2 > 1 {
+					fail += "DATAGRAM-DELIVERED-TWICE "
+				}
+				if got1+got2 == 0 && dead == "" {
+					fail += "DATAGRAM-STUCK-BEHIND-A-CLOSED-HANDLE(the open sibling's reader is still asleep) "
+				}
+				if got1 == 0 && e1 == nil && dead == "" && h1closing {
+					fail += "READ-ON-CLOSED-HANDLE-STILL-BLOCKED "
+				}
+				_ = h2.Close()
+				_ = m.Close()
+
+				return fmt.Sprintf("r1=%d r2=%d", got1, got2), fail
 			}
 		},
 	}
